@@ -33,6 +33,8 @@ pub struct ParserState<'a> {
     strict: bool,
     file_ver: A2lVersion,
     pub(crate) a2mlspec: Vec<A2mlTypeSpec>,
+    /// number of entries at the head of a2mlspec that are built-in specifications (the others come from A2ML blocks of the file)
+    pub(crate) a2mlspec_builtin: usize,
     // current nesting depth of blocks inside of uninterpreted IF_DATA
     pub(crate) ifdata_nesting_depth: usize,
     pub(crate) ifdata_empty_elements: usize,
@@ -303,6 +305,7 @@ impl<'a> ParserState<'a> {
             strict,
             file_ver: A2lVersion::V1_7_1,
             a2mlspec: Vec::new(),
+            a2mlspec_builtin: 0,
             ifdata_nesting_depth: 0,
             ifdata_empty_elements: 0,
         }
